@@ -25,6 +25,8 @@ func checkC10(c *Ctx) {
 	c.checkFanoutPres("C10.2", fo)
 	c.checkOnlineCounter()
 	c.checkOnOffSymmetry()
+	c.checkNoLostUpdate()
+	c.checkIntersect()
 }
 
 func (c *Ctx) checkOfflineFanout() {
